@@ -163,14 +163,37 @@ class PropertyCheck:
             self.judge_report(rep, baseline)
         # bounded stand-ins
         from concurrent.futures import ThreadPoolExecutor
-        todo = [b for b in self.spec.get("bounded", [])]
+        todo = []
+        for b in self.spec.get("bounded", []):
+            hooks = sys.modules[b[0]].CONCRETE[b[1]]
+            k = hooks.get("shards", 1)
+            if k > 1:
+                todo += [(b[0], b[1], (i, k)) for i in range(k)]
+            else:
+                todo.append((b[0], b[1], None))
         if todo:
             with ThreadPoolExecutor(max_workers=8) as tp:
                 outs = list(tp.map(self._bounded_quiet, todo))
+            merged = {}
             for b, out in zip(todo, outs):
                 if isinstance(out, Exception):
                     self.checker_errors.append(f"bounded {b[1]}: {out!r}")
                     continue
+                m = merged.get(b[1])
+                if m is None:
+                    merged[b[1]] = out
+                else:
+                    m["evaluations"] += out["evaluations"]
+                    m["distinct_nontrivial"] += out["distinct_nontrivial"]
+                    m["violations"] += out["violations"]
+                    m["problems"] += out["problems"]
+                    m["wall_s"] = max(m["wall_s"], out["wall_s"])
+                    m["budget_exhausted"] = m.get("budget_exhausted", False) or out.get("budget_exhausted", False)
+                    for k2, v2 in out["outcomes"].items():
+                        m["outcomes"][k2] = m["outcomes"].get(k2, 0) + v2
+            outs2 = list(merged.items())
+            todo, outs = [(None, k) for k, _ in outs2], [o for _, o in outs2]
+            for b, out in zip(todo, outs):
                 self.record_bounded(b[1], out)
                 for v in out["violations"]:
                     self.report_violation(b[1], f"{b[1]}:bounded", v, None)
@@ -178,7 +201,7 @@ class PropertyCheck:
 
     def _bounded_quiet(self, b):
         try:
-            return self.bounded_job(b[0], b[1], record=False)
+            return self.bounded_job(b[0], b[1], record=False, shard=b[2] if len(b) > 2 else None)
         except Exception as e:
             return e
 
@@ -360,12 +383,14 @@ class PropertyCheck:
         return os.path.relpath(path, HERE)
 
     # -------------------------------------------------------- bounded
-    def bounded_job(self, mod, key, record=True, budget=None):
+    def bounded_job(self, mod, key, record=True, budget=None, shard=None):
         mods = sys.modules[mod]
         hooks = mods.CONCRETE[key]
         job = {"mode": "bounded", "contract_module": mod, "key": key, "tier": self.tier, "seed": self.seed,
                "timeout_s": hooks.get("timeout_s", 1.0),
                "budget_s": budget or (hooks.get("budget_quick", 40) if self.tier == "quick" else hooks.get("budget_thorough", 300))}
+        if shard:
+            job["shard"] = list(shard)
         out = run_driver(job, timeout=job["budget_s"] + 120)
         if record:
             self.bounded.append({"kind": "runtime contract check on the real function (bounded, never counted as proved)",
